@@ -142,19 +142,32 @@ class Drv:
                 p = r.payload
                 if isinstance(p, EmptyStreamReader):
                     continue
-                if p._http_chunk_splits:
-                    for s in p._http_chunk_splits:
-                        if not r.splits or s > r.splits[-1]:
-                            r.splits.append(s)
-                if p._buffer:
-                    if p._exception is not None:
+                if p._exception is not None:
+                    if p._buffer:
                         # data buffered before the error is still the message's data
                         r.body += b"".join(p._buffer)[p._buffer_offset:]
                         p._buffer.clear()
                         p._buffer_offset = 0
                         p._size = 0
+                        progress = True
+                    continue
+                # the way an application sees chunk boundaries: readchunk(), for as long as it would not wait
+                while p._buffer or p._http_chunk_splits:
+                    coro = p.readchunk()
+                    try:
+                        coro.send(None)
+                    except StopIteration as si:
+                        data, end = si.value
+                    except BaseException:  # noqa: BLE001
+                        # the stream failed meanwhile (reading resumed the parser): next round takes what is left
+                        progress = p._exception is not None
+                        break
                     else:
-                        r.body += p.read_nowait(-1)
+                        coro.close()
+                        break
+                    r.body += data
+                    if end:
+                        r.splits.append(len(r.body))      # an empty chunk report shows as a repeated offset
                     progress = True
 
     # -- outcome ----------------------------------------------------------
